@@ -10,7 +10,7 @@ A case is a whole history of a real two-endpoint session (see
 ```
 H <mode> <alpha0> <beta0> <step> …
 step := <kind>^<alpha edits>^<beta edits>^<obs alpha>^<obs beta>
-kind := n | f,<op>,<name> | c,<op>,<name>
+kind := n | h | f,<op>,<name> | c,<op>,<name>      (h: flush request on a still-halted session)
 ```
 or a request sent straight to a local endpoint:
 ```
@@ -108,7 +108,7 @@ structure State where
   alpha : Option Entry
   beta : Option Entry
 
-inductive Kind' | normal | faulted | cancelled
+inductive Kind' | normal | faulted | cancelled | haltedFlush
   deriving DecidableEq
 
 structure CycleResult where
@@ -173,7 +173,8 @@ def cycle (mode : Mode) (s : State) (kind : Kind') (obsA obsB : Observed) : Cycl
           -- 1411-1415
           if αT.isNone || βT.isNone then { state := st, conflicts := none, status := "error", problems := "--" }
           else match kind with
-            | .normal => { state := st, conflicts := some (plan.conflicts.map (·.root)), status := "run", problems := "00" }
+            | .normal | .haltedFlush =>
+              { state := st, conflicts := some (plan.conflicts.map (·.root)), status := "run", problems := "00" }
             | .faulted => { state := st, conflicts := some (plan.conflicts.map (·.root)), status := "run", problems := "--" }
             | .cancelled => { state := st, conflicts := none, status := "cancelled", problems := "--" }
 
@@ -200,6 +201,7 @@ def parseStep (f : String) : Option StepIn :=
   match f.splitOn "^" with
   | [k, ea, eb, oa, ob] => do
     let kind ← (if k == "n" then some Kind'.normal
+      else if k == "h" then some Kind'.haltedFlush
       else match k.splitOn "," with
         | ["f", _, _] => some Kind'.faulted
         | ["c", _, _] => some Kind'.cancelled
@@ -207,24 +209,37 @@ def parseStep (f : String) : Option StepIn :=
     let obsA ← parseObserved oa
     let obsB ← parseObserved ob
     -- observed roots are given exactly for faulted and cancelled cycles
-    if (kind == .normal) != (obsA.isNone && obsB.isNone) then none
-    else if kind != .normal && (obsA.isNone || obsB.isNone) then none
+    let plain := kind == .normal || kind == .haltedFlush
+    if plain != (obsA.isNone && obsB.isNone) then none
+    else if !plain && (obsA.isNone || obsB.isNone) then none
     else some { kind, editsA := ea, editsB := eb, obsA, obsB }
   | _ => none
 
-def runHistory (mode : Mode) : State → List StepIn → List String → Option (List String)
-  | _, [], acc => some acc.reverse
-  | s, st :: rest, acc => do
+/-- The history loop. `halted` = the previous cycle ended in a halted state and
+the user has not paused/resumed since: controller.run waits for cancellation
+(controller.go:811-814) and `flush` refuses (`synchronizing == nil`, 354-357),
+so an `h` step (edits + one flush request, no pause/resume) changes nothing.
+Every other step on a halted session is preceded by the user's pause+resume,
+which starts a fresh loop that reloads the saved archive. An `h` step on a
+session that is not halted is an ordinary flush. -/
+def runHistory (mode : Mode) : State → Bool → List StepIn → List String → Option (List String)
+  | _, _, [], acc => some acc.reverse
+  | s, halted, st :: rest, acc => do
     let alpha ← applyEdits s.alpha st.editsA
     let beta ← applyEdits s.beta st.editsB
-    let r := cycle mode { s with alpha, beta } st.kind st.obsA st.obsB
-    runHistory mode r.state rest (r.render :: acc)
+    let s' : State := { s with alpha, beta }
+    if halted && st.kind == .haltedFlush then
+      let r : CycleResult := { state := s', conflicts := none, status := "halted", problems := "--" }
+      runHistory mode s' true rest (r.render :: acc)
+    else
+      let r := cycle mode s' st.kind st.obsA st.obsB
+      runHistory mode r.state (r.status.startsWith "halt") rest (r.render :: acc)
 
 def handleHistory : List String → String
   | m :: a0 :: b0 :: steps =>
     match parseMode m, parseOEntry a0, parseOEntry b0, steps.mapM parseStep with
     | some mode, some alpha, some beta, some steps =>
-      match runHistory mode { alpha, beta } steps [] with
+      match runHistory mode { alpha, beta } false steps [] with
       | some out => " | ".intercalate out
       | none => "bad-op"
     | _, _, _, _ => "bad-op"
